@@ -22,7 +22,7 @@ RULE = ('history = sequence of next / checkpoint (optionally pickled) / restore(
         'model = index into the uninterrupted run: after restoring checkpoint c the iterator must deliver exactly U[p_c:] (multiset '
         'with threads) and the final aggregate must equal the uninterrupted one; non-trivial = >= 2 generations of restore, or a '
         'restore on a sharded source, or threads >= 1; distinct = distinct canonical case JSON'
-        '; also: failing records skipped by ignore_error, sliced aggregates, three-stage chains, re-batching operators, mapping/tuple iterables')
+        '; also: sources of 65..200 records, a later operator failing on some batches under error skipping (fail_b), failing records skipped by ignore_error, sliced aggregates, three-stage chains, re-batching operators, mapping/tuple iterables')
 ASSUMPTIONS = [
     'pipelines use exact aggregates (integer sum/count) so the final aggregate comparison is exact',
     'with num_threads > 0 the comparison is on multisets (delivery order is schedule dependent)',
@@ -43,6 +43,13 @@ def col_add1(xs):
 
 
 def col_double(xs):
+  return [2 * x for x in xs]
+
+
+def col_double_unless_3(xs):
+  """col_double that cannot process batches whose first value is 4 or 9 (x = a + 1): a skippable error."""
+  if xs[0] % 5 == 4:
+    raise ValueError(f'cannot double {xs}')
   return [2 * x for x in xs]
 
 
@@ -106,14 +113,15 @@ def build_pipeline(case, source):
   from ml_metrics._src.aggregates import rolling_stats  # pylint: disable=g-import-not-at-top
   if p['shape'] == 'fused':
     if not p['agg_a']:
-      a = a.assign('y', fn=col_double, input_keys='x').aggregate(targets.SumAgg(), input_keys=('x', 'y'), output_keys=('sb', 'nb'))
+      a = a.assign('y', fn=col_double_unless_3 if p.get('fail_b') else col_double, input_keys='x').aggregate(
+          targets.SumAgg(), input_keys=('x', 'y'), output_keys=('sb', 'nb'))
       if p.get('slice'):
         a = a.add_slice('a')
     if p.get('inplace_agg'):
       # a shipped metric whose state is updated in place (the user aggregates above return new state objects)
       a = a.add_aggregate(fn=rolling_stats.Counter().as_agg_fn(), input_keys='x', output_keys='cx')
     return a
-  b = T.new(name='B').assign('y', fn=col_double, input_keys='x')
+  b = T.new(name='B').assign('y', fn=col_double_unless_3 if p.get('fail_b') else col_double, input_keys='x')
   if p['agg_b']:
     b = b.aggregate(targets.SumAgg(), input_keys='y', output_keys='sb')
     if p.get('slice'):
@@ -142,6 +150,9 @@ def run_history(case):
   def fresh():
     src = make_source(case['source'], copy.deepcopy(data))
     if is_pipeline:
+      if case['pipeline'].get('fail_b'):
+        # a later operator fails on some batches and the run skips them: a restored run keeps skipping them
+        return build_pipeline(case, src).make().iterate(ignore_error=True)
       return build_pipeline(case, src).make().iterate()
     return iter(src)
   it0 = _guard(fresh, f'{what}: building')
@@ -260,6 +271,8 @@ def strat_sources(tier):
   @st.composite
   def s(draw):
     n = draw(st.integers(0, 14))
+    if draw(st.integers(0, 9)) == 0:
+      n = draw(st.sampled_from([65, 66, 129, 140, 200]))     # longer than the sources' read-ahead window (2**6 records)
     return {'source': _source(draw, n, hashable=True), 'data': list(range(n)), 'ops': _ops(draw, maxops)}
   return s()
 
@@ -275,6 +288,8 @@ def _pipeline_case(draw, maxops, threads):
     pipe['agg_b'] = True
   if shape == 'chained':
     pipe['third_stage'] = draw(st.sampled_from([None, None, 'plain', 'agg']))
+  if not pipe['rebatch'] and draw(st.integers(0, 3)) == 0:
+    pipe['fail_b'] = True
   return {'source': _source(draw, nb), 'data': data, 'pipeline': pipe, 'num_threads': draw(st.sampled_from(threads)),
           'ops': _ops(draw, maxops)}
 
